@@ -95,6 +95,13 @@ func gen(g *mon.Gen) {
 		}
 		g.Emit(&Case{Layer: "B", Kind: "random", FCs: fcs, Seed: rng.Int63()})
 	}
+	if g.Thorough() {
+		// (thorough only: each case takes 27 s) a request that dribbles in over longer than the server's idle timeout
+		// (25 s), every pause shorter than it: a connection that keeps receiving bytes is not idle
+		for i := 0; i < 3; i++ {
+			g.Emit(&Case{Layer: "B", Kind: "very-slow", FCs: []int{3, []int{16, 3, 15}[i]}, Seed: rng.Int63()})
+		}
+	}
 	// layer L: the same through ListenAndServe on the loopback interface (plausibility cross-check of layer B's in-memory
 	// transport: here the kernel decides how writes are segmented, pauses between writes make splitting likely)
 	for i := 0; i < g.Pick(8, 120); i++ {
@@ -412,6 +419,10 @@ func run(ci any, r *mon.Rec) {
 	for _, fc := range c.FCs {
 		h = mon.Mix(h, uint64(fc))
 	}
+	if c.Layer == "B" && c.Kind == "very-slow" {
+		runVerySlow(c, r, rng, frames, ref)
+		return
+	}
 	if c.Layer == "B" {
 		runB(c, r, rng, frames, ref, h)
 		return
@@ -717,6 +728,64 @@ func runB(c *Case, r *mon.Rec, rng *rand.Rand, frames [][]byte, ref [][]byte, h 
 }
 
 func errTimeout(err error) error { return err }
+
+// runVerySlow: one request answered normally, then a second one sent in four parts nine seconds apart (27 s in all,
+// longer than the server's 25 s idle timeout; each pause far shorter). Nothing is sent before it is complete, its reply
+// follows the last part.
+func runVerySlow(c *Case, r *mon.Rec, rng *rand.Rand, frames [][]byte, ref [][]byte) {
+	dev := simdev.New(devSeed(c), "srv")
+	l := srvx.NewMemListener()
+	s := &server.Server{OnErrorFunc: func(error) {}, WriteTimeout: 2 * time.Second}
+	ctx, cancel := context.WithCancel(context.Background())
+	defer cancel()
+	served := make(chan error, 1)
+	go func() { served <- s.Serve(ctx, l, devHandler(c, dev)) }()
+	defer func() {
+		sctx, sc := context.WithTimeout(context.Background(), 3*time.Second)
+		_ = s.Shutdown(sctx)
+		sc()
+	}()
+	a := mon.Attrs{"layer": "B", "very_slow": true}
+	cli, _, err := l.Dial(2 * time.Second)
+	if err != nil {
+		r.Inconclusive("very-slow: cannot connect: " + err.Error())
+		return
+	}
+	defer cli.Close()
+	r.Eval(1)
+	r.Cover("layer", "B-request-dribbling-in-over-27s")
+	_ = cli.SetWriteDeadline(time.Now().Add(2 * time.Second))
+	if _, err := cli.Write(frames[0]); err != nil {
+		r.Inconclusive("very-slow: write: " + err.Error())
+		return
+	}
+	if rep, _ := srvx.ReadN(cli, len(ref[0]), 3*time.Second); !bytes.Equal(rep, ref[0]) {
+		r.Violate(c, "lockstep-reply-wrong", a, fmt.Sprintf("first (whole) request: got % x want % x", head(rep), head(ref[0])))
+		return
+	}
+	f := frames[1]
+	q := len(f) / 4
+	parts := [][]byte{f[:q], f[q : 2*q], f[2*q : 3*q], f[3*q:]}
+	for i, p := range parts {
+		if i > 0 {
+			time.Sleep(9 * time.Second)
+		}
+		if early := srvx.Drain(cli, 20*time.Millisecond); len(early) > 0 {
+			r.Violate(c, "surplus-bytes", a, fmt.Sprintf("before part %d of the slow request was sent the server had sent % x", i, head(early)))
+			return
+		}
+		_ = cli.SetWriteDeadline(time.Now().Add(2 * time.Second))
+		if _, err := cli.Write(p); err != nil {
+			r.Violate(c, "server-closed-connection", a, fmt.Sprintf("slow request (4 parts, 9 s apart): writing part %d failed: %v - the connection was receiving bytes all along, every pause far below the idle timeout", i, err))
+			return
+		}
+	}
+	rep, rerr := srvx.ReadN(cli, len(ref[1]), 3*time.Second)
+	if !bytes.Equal(rep, ref[1]) {
+		r.Violate(c, "lockstep-reply-missing", a, fmt.Sprintf("request % x sent in 4 parts 9 s apart: got % x (err %v), want % x", head(f), head(rep), rerr, head(ref[1])))
+	}
+	r.Distinct(mon.Mix(0x5100, uint64(c.Seed)))
+}
 
 // runL: real TCP over loopback. Segmentation is suggested (TCP_NODELAY + pauses), not controlled, so only the
 // stream-level oracle applies: the bytes received equal the reference reply stream, nothing more, nothing less.
